@@ -87,7 +87,9 @@ def kind(v):
 def near(a, b):
     if a == b:
         return False
-    m = max(abs(a), abs(b))
+    # relative to the operands, with an absolute floor: re-associated float sums of O(1) terms differ by ~1e-16
+    # around zero, which is no more meaningful than a relative 1e-16 elsewhere
+    m = max(abs(a), abs(b), 1.0)
     return abs(a - b) <= 1e-9 * m
 
 
